@@ -183,6 +183,9 @@ func Inbound(a *Action, peerID, ourID string, ts string) []byte {
 		if a.Omit != "hb" && a.Omit != "both" {
 			body = append(body, F("108", hb))
 		}
+		if a.Extra == 10 { // ... a Logon that carries ResetSeqNumFlag (141=Y), as clients configured to reset on logon send it every time
+			body = append(body, F("141", "Y"))
+		}
 		body = append(body, F("553", "user"), F("554", pw))
 	case "logout":
 		ty = "5"
